@@ -61,12 +61,18 @@ func (f *Filter) Append(buf []byte, _, _ bool) []byte {
 }
 
 func (f *Filter) remove(value any) (out any, changed bool) {
+	return f.removeMatching(value, f.Match)
+}
+
+// removeMatching removes the members of value that match. The match function
+// decides what $ in the script refers to.
+func (f *Filter) removeMatching(value any, match func(v any) bool) (out any, changed bool) {
 	out = value
 	switch tv := value.(type) {
 	case []any:
 		ns := make([]any, 0, len(tv))
 		for _, v := range tv {
-			if f.Match(v) {
+			if match(v) {
 				changed = true
 			} else {
 				ns = append(ns, v)
@@ -77,7 +83,7 @@ func (f *Filter) remove(value any) (out any, changed bool) {
 		}
 	case map[string]any:
 		for k, v := range tv {
-			if f.Match(v) {
+			if match(v) {
 				delete(tv, k)
 				changed = true
 			}
@@ -85,7 +91,7 @@ func (f *Filter) remove(value any) (out any, changed bool) {
 	case gen.Array:
 		ns := make(gen.Array, 0, len(tv))
 		for _, v := range tv {
-			if f.Match(v) {
+			if match(v) {
 				changed = true
 			} else {
 				ns = append(ns, v)
@@ -96,7 +102,7 @@ func (f *Filter) remove(value any) (out any, changed bool) {
 		}
 	case gen.Object:
 		for k, v := range tv {
-			if f.Match(v) {
+			if match(v) {
 				delete(tv, k)
 				changed = true
 			}
@@ -105,7 +111,7 @@ func (f *Filter) remove(value any) (out any, changed bool) {
 		size := tv.Size()
 		for i := (size - 1); i >= 0; i-- {
 			v := tv.ValueAtIndex(i)
-			if f.Match(v) {
+			if match(v) {
 				tv.RemoveValueAtIndex(i)
 				changed = true
 			}
@@ -114,7 +120,7 @@ func (f *Filter) remove(value any) (out any, changed bool) {
 		keys := tv.Keys()
 		for _, key := range keys {
 			v, _ := tv.ValueForKey(key)
-			if f.Match(v) {
+			if match(v) {
 				tv.RemoveValueForKey(key)
 				changed = true
 			}
@@ -130,7 +136,7 @@ func (f *Filter) remove(value any) (out any, changed bool) {
 			cnt := rv.Len()
 			nc := 0
 			for i := 0; i < cnt; i++ {
-				if f.Match(rv.Index(i).Interface()) {
+				if match(rv.Index(i).Interface()) {
 					changed = true
 				} else {
 					nc++
@@ -142,7 +148,7 @@ func (f *Filter) remove(value any) (out any, changed bool) {
 				ns := reflect.MakeSlice(rv.Type(), nc, nc)
 				for i := 0; i < cnt; i++ {
 					iv := rv.Index(i)
-					if f.Match(iv.Interface()) {
+					if match(iv.Interface()) {
 						changed = true
 					} else {
 						ns.Index(ni).Set(iv)
@@ -155,7 +161,7 @@ func (f *Filter) remove(value any) (out any, changed bool) {
 			keys := rv.MapKeys()
 			for _, k := range keys {
 				mv := rv.MapIndex(k)
-				if f.Match(mv.Interface()) {
+				if match(mv.Interface()) {
 					rv.SetMapIndex(k, reflect.Value{})
 					changed = true
 				}
@@ -166,12 +172,16 @@ func (f *Filter) remove(value any) (out any, changed bool) {
 }
 
 func (f *Filter) removeOne(value any) (out any, changed bool) {
+	return f.removeOneMatching(value, f.Match)
+}
+
+func (f *Filter) removeOneMatching(value any, match func(v any) bool) (out any, changed bool) {
 	out = value
 	switch tv := value.(type) {
 	case []any:
 		ns := make([]any, 0, len(tv))
 		for _, v := range tv {
-			if !changed && f.Match(v) {
+			if !changed && match(v) {
 				changed = true
 			} else {
 				ns = append(ns, v)
@@ -188,7 +198,7 @@ func (f *Filter) removeOne(value any) (out any, changed bool) {
 			}
 			sort.Strings(keys)
 			for _, k := range keys {
-				if f.Match(tv[k]) {
+				if match(tv[k]) {
 					delete(tv, k)
 					changed = true
 					break
@@ -198,7 +208,7 @@ func (f *Filter) removeOne(value any) (out any, changed bool) {
 	case gen.Array:
 		ns := make(gen.Array, 0, len(tv))
 		for _, v := range tv {
-			if !changed && f.Match(v) {
+			if !changed && match(v) {
 				changed = true
 			} else {
 				ns = append(ns, v)
@@ -215,7 +225,7 @@ func (f *Filter) removeOne(value any) (out any, changed bool) {
 			}
 			sort.Strings(keys)
 			for _, k := range keys {
-				if f.Match(tv[k]) {
+				if match(tv[k]) {
 					delete(tv, k)
 					changed = true
 					break
@@ -226,7 +236,7 @@ func (f *Filter) removeOne(value any) (out any, changed bool) {
 		size := tv.Size()
 		for i := 0; i < size; i++ {
 			v := tv.ValueAtIndex(i)
-			if f.Match(v) {
+			if match(v) {
 				tv.RemoveValueAtIndex(i)
 				changed = true
 				break
@@ -237,7 +247,7 @@ func (f *Filter) removeOne(value any) (out any, changed bool) {
 		sort.Strings(keys)
 		for _, key := range keys {
 			v, _ := tv.ValueForKey(key)
-			if f.Match(v) {
+			if match(v) {
 				tv.RemoveValueForKey(key)
 				changed = true
 				break
@@ -254,7 +264,7 @@ func (f *Filter) removeOne(value any) (out any, changed bool) {
 			cnt := rv.Len()
 			nc := 0
 			for i := 0; i < cnt; i++ {
-				if !changed && f.Match(rv.Index(i).Interface()) {
+				if !changed && match(rv.Index(i).Interface()) {
 					changed = true
 				} else {
 					nc++
@@ -266,7 +276,7 @@ func (f *Filter) removeOne(value any) (out any, changed bool) {
 				ns := reflect.MakeSlice(rv.Type(), nc, nc)
 				for i := 0; i < cnt; i++ {
 					iv := rv.Index(i)
-					if !changed && f.Match(iv.Interface()) {
+					if !changed && match(iv.Interface()) {
 						changed = true
 					} else {
 						ns.Index(ni).Set(iv)
@@ -282,7 +292,7 @@ func (f *Filter) removeOne(value any) (out any, changed bool) {
 			})
 			for _, k := range keys {
 				mv := rv.MapIndex(k)
-				if f.Match(mv.Interface()) {
+				if match(mv.Interface()) {
 					rv.SetMapIndex(k, reflect.Value{})
 					changed = true
 					break
